@@ -30,3 +30,7 @@ package lua
 
 //@ func (*LuaAuthorizer).dryRun
 //@ trusted
+
+// Operations reported as read-only never modify state.
+//@ func isReadOnly
+//@ ensures[C31:read-only-means-read-only] result ==> specReadOnlyOperation(operation)
